@@ -871,6 +871,7 @@ func (kcp *KCP) flush(flushType FlushType) (nextUpdate uint32) {
 		kcp.snd_nxt++
 		newSegsCount++
 	}
+	verifFlushAdmitted(kcp, newSegsCount)
 
 	// calculate resent
 	resent := uint32(kcp.fastresend)
